@@ -37,6 +37,16 @@ func cliExit(r *Run) {
 	} else {
 		r.Probe("par2")
 	}
+	forceAppend0 := false
+	switchDone := false
+	if t.Bool(1, 8, "file-at-16k") {
+		// one file right at the 16 KiB boundary of the file hashes
+		data := expandContent(ckRandom, t.Draw64(0, "k16-seed"), 16383+t.Draw(3, "k16-d"), 4)
+		w.Files[0].Data = data
+		w.Disk.Put(w.Path(0), data)
+		r.Probe("file-at-16KiB")
+		forceAppend0 = t.Bool(1, 2, "append-to-16k-file")
+	}
 	rw := r.Materialise(w)
 	os.MkdirAll(rw.Real("/elsewhere"), 0755)
 	setDir := rw.Real(w.Dir)
@@ -238,6 +248,23 @@ func cliExit(r *Run) {
 			}
 		}
 		return sliceCount(i)
+	}
+	if forceAppend0 && !indexBadState(state) {
+		cur, _ := w.Disk.Get(w.Path(0))
+		g := expandContent(ckRandom, t.Draw64(0, "gseed0"), 1+t.Draw(200, "applen0"), 4)
+		w.Disk.Put(w.Path(0), append(append([]byte(nil), cur...), g...))
+		r.Logf("state: %d bytes appended to %q", len(g), w.Files[0].Name)
+		r.Probe("damage:appended-bytes")
+		if par1Set {
+			capacity--
+		}
+		if state == "intact" {
+			state = "repairable"
+			switchDone = true
+		}
+	}
+	if switchDone {
+		state = "appended-only"
 	}
 	switch state {
 	case "repairable":
